@@ -4,7 +4,7 @@ import hashlib
 import json
 import os
 
-from core import Result
+from core import Result, stable, guard
 from protocol import enc_tree, dec_tree, canon_tree, enc_str
 
 RULE = ("six algorithms x secrets (str and bytes; empty, Unicode, 10 kB, shared prefixes) x pairs of distinct secrets, with "
@@ -57,11 +57,150 @@ def as_bytes(p):
     return p.encode() if isinstance(p, str) else p
 
 
+def nested_and_reset_stream(ctx, res):
+    """the same contract away from the root field: (a) after `reset_value` of a challenge field with a plaintext default — plain, bound to
+    a variable that is unset, below a schema with an environment prefix — the configuration holds a digest (fresh salt) that verifies
+    the default and nothing else, and saves without the plaintext; (b) a plaintext written by hand into an XML / JSON document that
+    happens to spell a number, a boolean or null is a plaintext like any other: it is hashed on load; (c) challenge fields inside items
+    of configuration lists (schema items and config types), inside a config-type field and two sections deep: the stored salt and
+    digest survive save and load in every format, also when the item maps of the saved tree are assigned as a list"""
+    import copy as _copy
+    import os as _os
+    import cincoconfig as cc
+    from cincoconfig.fields import DigestValue
+    n = [0]
+    for alg in ("md5", "sha256", "sha512"):
+        hfun = getattr(hashlib, alg)
+        size = hfun().digest_size
+
+        def verifies(d, plain):
+            return isinstance(d, DigestValue) and len(d.salt) == size and d.digest == hfun(d.salt + plain.encode()).digest()
+        # (a)
+        for mode in ("plain", "named-unset", "derived-unset", "prefix-unset", "nested-prefix"):
+            for var in ("CINCO_T_C09R_PW", "CINCO_T_C09R_AUTH_PASSWORD", "CINCO_T_C09R"):
+                _os.environ.pop(var, None)
+            default = "default-s\u00e9cret \u2713"
+            s = cc.Schema(env="CINCO_T_C09R") if mode in ("prefix-unset", "nested-prefix", "derived-unset") else cc.Schema()
+            kw = {"env": "CINCO_T_C09R_PW"} if mode == "named-unset" else {"env": True} if mode == "derived-unset" else {}
+            if mode == "nested-prefix":
+                s.auth.password = cc.ChallengeField(alg, default=default)
+                path = "auth.password"
+            else:
+                s.pw = cc.ChallengeField(alg, default=default, **kw)
+                path = "pw"
+            cfg = s()
+            first = cfg[path]
+            cfg[path] = "another secret"
+            case = {"stream": "reset", "alg": alg, "binding": mode}
+            res.case(stable(case), kind="reset:" + mode)
+            try:
+                cc.reset_value(cfg, path)
+                held = cfg[path]
+            except Exception as e:  # noqa
+                res.violate("C09:reset", "reset_value of a challenge field raised %s" % type(e).__name__, dict(case, error=str(e)[:120]))
+                continue
+            if not verifies(held, default):
+                res.violate("C09:reset:not-a-digest", "after reset_value the challenge field does not hold a salted hash of its default", dict(case, held_type=type(held).__name__))
+                continue
+            ok = True
+            try:
+                held.challenge("another secret")
+                ok = False
+            except ValueError:
+                pass
+            if not ok or (isinstance(first, DigestValue) and first.salt == held.salt):
+                res.violate("C09:reset:not-a-digest", "after reset_value the held digest verifies another secret, or reuses the salt of the first default", case)
+            for fmt in FORMATS:
+                try:
+                    doc = cfg.dumps(format=fmt)
+                except Exception as e:  # noqa
+                    res.violate("C09:reset", "saving after reset_value raised %s" % type(e).__name__, dict(case, fmt=fmt))
+                    break
+                if default.encode() in doc or "default-s".encode() in doc:
+                    res.violate("C09:plaintext-in-document", "the plaintext default occurs in a document saved after reset_value", dict(case, fmt=fmt))
+        # (b)
+        s = cc.Schema()
+        s.pw = cc.ChallengeField(alg)
+        s.auth.password = cc.ChallengeField(alg)
+        for text in ("123456", "007", "1e5", "nan", "true", "False", "Infinity", "-1", "0x10", "null", "None", "1.0", "yes"):
+            docs = [("xml", ("<config><pw>%s</pw><auth type=\"dict\"><password>%s</password></auth></config>" % (text, text)).encode()),
+                    ("json", json.dumps({"pw": text, "auth": {"password": text}}).encode()),
+                    ("yaml", ("pw: '%s'\nauth:\n  password: \"%s\"\n" % (text, text)).encode())]
+            for fmt, doc in docs:
+                case = {"stream": "hand-written-lookalike", "alg": alg, "fmt": fmt, "text": text}
+                res.case(stable(case), kind="hand-written-lookalike:" + fmt)
+                cfg = s()
+                try:
+                    cfg.loads(doc, format=fmt)
+                    ok = verifies(cfg.pw, text) and verifies(cfg.auth.password, text)
+                    err = None
+                except Exception as e:  # noqa
+                    ok, err = False, "%s: %s" % (type(e).__name__, str(e)[:100])
+                if not ok:
+                    res.violate("C09:hand-written-not-hashed", "a plaintext written by hand into a document (it spells a number, a boolean or null) is not hashed on load", dict(case, error=err))
+        # (c)
+        n[0] += 1
+        user = cc.Schema()
+        user.name = cc.StringField(default="u")
+        user.password = cc.ChallengeField(alg)
+        User = cc.make_type(user, "C09User%d" % n[0])
+        plain_item = cc.Schema()
+        plain_item.label = cc.StringField(default="l")
+        plain_item.pin = cc.ChallengeField(alg)
+        t = cc.Schema()
+        t.admin = User
+        t.users = cc.ListField(User, default=lambda: [])
+        t.slots = cc.ListField(plain_item, default=lambda: [])
+        t.a.b.pw = cc.ChallengeField(alg)
+        src = t()
+        src.admin = User(name="root", password="admin-pw")
+        src.users = [User(name="u1", password="pw-1"), User(name="u2", password="pw-2")]
+        src.slots = [{"label": "s", "pin": "1234"}]
+        src.a.b.pw = "deep-pw"
+
+        def digests(c):
+            return [(d.salt, d.digest) if isinstance(d, DigestValue) else repr(d) for d in
+                    [c.admin.password if c.admin is not None else None] + [u.password for u in c.users] + [x.pin for x in c.slots] + [c.a.b.pw]]
+        want = digests(src)
+        for fmt in FORMATS + ["tree", "assign-item-maps"]:
+            case = {"stream": "nested-challenge", "alg": alg, "route": fmt}
+            res.case(stable(case), kind="nested-challenge:" + fmt)
+            dst = t()
+            try:
+                if fmt == "tree":
+                    dst.load_tree(_copy.deepcopy(src.to_tree()))
+                elif fmt == "assign-item-maps":
+                    tree = _copy.deepcopy(src.to_tree())
+                    dst.admin = tree["admin"]
+                    dst.users = tree["users"]
+                    dst.slots = tree["slots"]
+                    dst.a = tree["a"]
+                else:
+                    dst.loads(src.dumps(format=fmt), format=fmt)
+                got = digests(dst)
+                err = None
+            except Exception as e:  # noqa
+                got, err = None, "%s: %s" % (type(e).__name__, str(e)[:120])
+            if got != want:
+                res.violate("C09:reload-differs:nested", "the salt and digest of a challenge field inside a nested configuration (list item, config-type field, section) do not "
+                            "survive save and load", dict(case, error=err))
+                continue
+            try:
+                dst.users[1].password.challenge("pw-2")
+                dst.slots[0].pin.challenge("1234")
+                fine = True
+            except Exception:  # noqa
+                fine = False
+            if not fine:
+                res.violate("C09:reload-differs:nested", "after save and load a challenge inside a list item no longer verifies its secret", case)
+
+
 def run(ctx):
     from cincoconfig import Schema, ChallengeField
     from cincoconfig.fields import DigestValue
     import os as _os
     res = Result()
+    guard(res, "C09", nested_and_reset_stream, ctx, res)
     rng = ctx.rng
     reqs, pend = [], []
     for alg in ALGS:
